@@ -24,6 +24,7 @@ import (
 	"sync"
 	"syscall"
 	"time"
+	"unsafe"
 )
 
 // Outcome of one input, as seen from inside the worker.
@@ -507,17 +508,30 @@ var sentinel []byte
 // is released: short-lived buffers are then served from the released range, below the fence, and
 // a request too large for that range goes above it.
 func FenceHeap() {
-	t := make([]byte, 256<<20)
-	sentinel = make([]byte, 1<<20)
-	sentinel[0] = t[0]
-	t = nil
+	if sentinel != nil {
+		return
+	}
+	var held [][]byte
+	for try := 0; try < 8; try++ {
+		t := make([]byte, 256<<20)
+		f := make([]byte, 1<<20)
+		if uintptr(unsafe.Pointer(&f[0])) > uintptr(unsafe.Pointer(&t[len(t)-1])) {
+			sentinel = f // the fence sits above the 256 MiB range that is about to be released
+			sentinel[0] = 1
+			break
+		}
+		held = append(held, t, f) // keep them allocated so that the next attempt lands elsewhere
+	}
+	held = nil
 	runtime.GC()
 }
 
 // serve is the worker loop.
 func serve(fn Fn) {
 	debug.SetMaxStack(64 << 20)
-	FenceHeap()
+	if sentinel == nil {
+		FenceHeap()
+	}
 	pf, err := os.OpenFile(os.Getenv("VERIF_ISO_PROGRESS"), os.O_WRONLY, 0)
 	if err != nil {
 		fmt.Fprintln(os.Stderr, "iso worker: cannot open progress file:", err)
